@@ -134,7 +134,9 @@ func (c *supervisionContext) applyDecision(ctx *Context, targets vivid.ActorRefs
 	case decision.IsResume():
 		c.broadcastAllTargets(ctx, true, messages.CommandResumeMailbox.Build())
 
-	case decision.IsEscalate():
+	default:
+		// 升级（IsEscalate），以及预料之外的决策值：按 vivid.SupervisionDecision 的约定作为升级处理，
+		// 否则目标已被挂起却无人再处理，将永久停留在暂停状态。
 		// 升级后视为自身的故障，但是携带了下级故障信息
 		// 挂起当前 Actor 的消息处理并且向父级 Actor 发送监督上下文以触发父级 Actor 的监督策略
 		ctx.mailbox.Pause()
